@@ -119,7 +119,7 @@ structure BlockSum where
   hasPayload : Bool
   typeUrl : Bytes
   value : Bytes
-  kind : Nat             -- PayloadKind (legacy)
+  kind : Int             -- PayloadKind (legacy; an int32 enum on the wire: a damaged file can carry a negative value)
   buffer : Bytes         -- PayloadBuffer (legacy)
   ts : String            -- timestamp, passed through
 deriving DecidableEq, Repr
